@@ -268,6 +268,18 @@ func (k *kernel) translate() (text string, rep report) {
 				k.partial = true
 			}
 		}
+		if c, ok := n.(*ast.CallExpr); ok { // a series handed to a helper function that only passes it on
+			if r := k.resolveFunc(c.Fun); r != nil && !k.hasErrResult(r) {
+				if ins, _, ok := k.typedSignature(r); ok {
+					args := callArgs(c, r)
+					for i, a := range args {
+						if id, isId := a.(*ast.Ident); isId && i < len(ins) && ins[i] == "σ" {
+							whole[id.Name] = true
+						}
+					}
+				}
+			}
+		}
 		return true
 	})
 	for _, s := range k.series {
@@ -532,12 +544,40 @@ func (k *kernel) translate() (text string, rep report) {
 			}
 		}
 	}
+	// the same loop written on the index vector itself: for idx := []int{0}; idx[0] < n; idx[0]++
+	var idxIv *ast.Ident
+	if !okHeader && init != nil && cond != nil && post != nil && init.Tok == token.DEFINE && len(init.Lhs) == 1 && len(init.Rhs) == 1 &&
+		cond.Op == token.LSS && post.Tok == token.INC {
+		id, _ := init.Lhs[0].(*ast.Ident)
+		cl, _ := init.Rhs[0].(*ast.CompositeLit)
+		elem0 := func(e ast.Expr) bool {
+			ix, ok := e.(*ast.IndexExpr)
+			if !ok || id == nil {
+				return false
+			}
+			z, _ := ix.Index.(*ast.BasicLit)
+			return isIdent(ix.X, id.Name) && z != nil && z.Value == "0"
+		}
+		if id != nil && id.Name != "_" && cl != nil && len(cl.Elts) == 1 && elem0(cond.X) && elem0(post.X) && k.lookup("int") == nil {
+			at, _ := cl.Type.(*ast.ArrayType)
+			z, _ := cl.Elts[0].(*ast.BasicLit)
+			if at != nil && at.Len == nil && isIdent(at.Elt, "int") && z != nil && z.Value == "0" && k.lenExpr(cond.Y) {
+				okHeader, idxIv = true, id
+			}
+		}
+	}
 	if !okHeader {
 		k.fail(loop, "loop header other than `for i := 0; i < n; i++` over a series length")
 	}
 	k.partial = k.nodePartial(loop.Body)
 	k.push()
-	k.loopVar = k.declare(iv, vLoop)
+	if idxIv != nil {
+		k.declare(idxIv, vIdx)
+		k.idxBound = true
+		k.loopVar = &variable{kind: vLoop, name: "", depth: k.sc.depth, inLoop: true}
+	} else {
+		k.loopVar = k.declare(iv, vLoop)
+	}
 	k.inLoop = true
 	for _, o := range k.outputs {
 		k.always[k.outVar[o]] = true
@@ -572,6 +612,21 @@ func (k *kernel) translate() (text string, rep report) {
 		k.inFinal = false
 	}
 	return k.render(rel, pos.Line, &rep)
+}
+
+// the length of a series: a variable bound to `xs.Len1()`, or that call
+func (k *kernel) lenExpr(e ast.Expr) bool {
+	if n, isId := e.(*ast.Ident); isId {
+		return k.lookup(n.Name) != nil && k.lookup(n.Name).kind == vLen
+	}
+	call, _ := e.(*ast.CallExpr)
+	if call != nil && len(call.Args) == 0 {
+		if sel, ok := call.Fun.(*ast.SelectorExpr); ok && sel.Sel.Name == "Len1" {
+			x, _ := sel.X.(*ast.Ident)
+			return x != nil && k.lookup(x.Name) != nil && k.lookup(x.Name).kind == vSeries && !k.lookup(x.Name).isNil
+		}
+	}
+	return false
 }
 
 func onlyStmt(l []ast.Stmt) ast.Stmt {
@@ -623,12 +678,33 @@ func (k *kernel) abstractFns() []*helperDef {
 // the parameters of step: the scalars that are not states; the pre-loop locals the loop reads
 func (k *kernel) stepParams() (params, live []*variable) {
 	for _, v := range k.preLocals {
-		if k.liveIn[v] && !v.state {
+		if k.liveIn[v] && !v.state && !v.sunk {
 			live = append(live, v)
 		}
 	}
+	// BLOCK SINKING: what is left (values assigned more than once before the loop, parameters assigned there) is still a
+	// function of the parameters alone when the statements before the loop read no series and no parameter that the loop
+	// carries, and cannot panic: then ALL of them are rendered at the top of step / final (the state variables are re-bound to
+	// the incoming state after them) and there is no `pre`
+	if !k.blockDecided {
+		k.blockDecided = true
+		ok := len(live) > 0 && !k.prePartial && len(k.firsts) == 0 && !k.preReadsStateParam && k.preInd == 0 && k.hasLoop
+		for _, v := range live {
+			ok = ok && (v.kind == vFloat || v.kind == vBool || v.kind == vIntVar)
+		}
+		for _, v := range k.preLocals {
+			ok = ok && v.kind != vSlice
+		}
+		for _, l := range k.preLets {
+			ok = ok && !strings.Contains(l, "match ")
+		}
+		k.blockSunk = ok
+	}
+	if k.blockSunk {
+		live = nil
+	}
 	for _, v := range k.scalars {
-		if !v.state && !v.reassigned {
+		if !v.state && (!v.reassigned || k.blockSunk) {
 			params = append(params, v)
 		}
 	}
@@ -852,8 +928,21 @@ func (k *kernel) render(rel string, line int, rep *report) (string, report) {
 		if len(k.tables) > 0 {
 			tables = strings.Replace(binder(k.tables), " : α)", " : σ)", 1)
 		}
-		fmt.Fprintf(&b, "def step {α : Type} [Num α]%s%s%s%s%s%s%s : %s :=\n", sigma, binder(params), abs, binder(live), binder(sts),
+		stBinder, sunk := binder(sts), k.sunkText()
+		if k.blockSunk { // the incoming state under fresh names; the state variables are re-bound after the pre-loop lets
+			var in []*variable
+			rebind := ""
+			for _, v := range sts {
+				c := *v
+				c.lean = k.fresh(v.lean + "_in")
+				in = append(in, &c)
+				rebind += fmt.Sprintf("  let %s : %s := %s\n", v.lean, v.typ(), c.lean)
+			}
+			stBinder, sunk = binder(in), preLets(len(k.preLets))+rebind
+		}
+		fmt.Fprintf(&b, "def step {α : Type} [Num α]%s%s%s%s%s%s%s : %s :=\n", sigma, binder(params), abs, binder(live), stBinder,
 			binder(k.inputs), tables, ret)
+		b.WriteString(sunk)
 		b.WriteString(k.stepText)
 		if k.postText != "" {
 			fret := tupleTypeVs(k.states)
@@ -861,7 +950,7 @@ func (k *kernel) render(rel string, line int, rep *report) (string, report) {
 				fret = "Option " + paren(fret, map[bool]int{true: pAtom, false: 0}[len(k.states) == 1], pAtom)
 			}
 			fmt.Fprintf(&b, "/-- the statements after the loop: parameters, pre-loop values, final state ↦ the returned values -/\n")
-			fmt.Fprintf(&b, "def final {α : Type} [Num α]%s%s%s%s%s : %s :=\n%s", sigmaFinal, binder(params), abs, binder(live), binder(sts), fret, k.postText)
+			fmt.Fprintf(&b, "def final {α : Type} [Num α]%s%s%s%s%s : %s :=\n%s", sigmaFinal, binder(params), abs, binder(live), stBinder, fret, sunk+k.postText)
 		}
 	}
 	fmt.Fprintf(&b, "end %s\n", ns)
